@@ -91,6 +91,8 @@ InitClient ==
      regs |-> {},                                  \* registertower calls in flight
      alive |-> TRUE,
      poisoned |-> FALSE,                           \* the state mutex is poisoned
+     rpc |-> {},                                   \* <<id, answer>>: retrytower / abandontower calls that have taken effect
+                                                   \* while the rig has not read the answer yet (trace validation)
      mgr |-> TRUE,                                 \* the manager task is alive
      mgrN |-> 0,                                   \* earliest time of its next round (trace validation; 0 otherwise)
      \* ghosts
@@ -190,7 +192,10 @@ SetNot(c, n, n2) == [c EXCEPT !.nots = (@ \ {n}) \cup {n2}]
 DropNot(c, n) == [c EXCEPT !.nots = @ \ {n}]
 \* the handler aborted: the towers it had not finished with are never served
 NotDies(c, n) ==
-    [Die(DropNot(c, n)) EXCEPT !.done = @ \cup {<<x[1], n.l>> : x \in {y \in n.todo : y[2] # "misbehaving" /\ Known(c, y[1])}}]
+    [Die(DropNot(c, n)) EXCEPT !.done = @ \cup
+        (IF n.pc = "new"            \* it had not even copied the statuses
+         THEN {<<m.t, n.l>> : m \in {x \in c.st.mem : x.status # "misbehaving"}}
+         ELSE {<<x[1], n.l>> : x \in {y \in n.todo : y[2] # "misbehaving" /\ Known(c, y[1])}})]
 
 NotifyCall(c, id, l) ==
     IF ~c.alive THEN {c}
@@ -352,11 +357,12 @@ MgrStart(c, t, tm) ==
     ELSE IF c.poisoned THEN {MgrDies(c)}
     ELSE IF ~Known(c, t) THEN {[c EXCEPT !.rt[t] = RetAbsent]}
     \* a tower proven misbehaving is not retried (a handler working on an older copy of the statuses may still have
-    \* asked for it).  S18: the code starts the loop and overwrites the status.
-    ELSE IF Status(c, t) = "misbehaving" /\ ~Dev("S18") THEN {[c EXCEPT !.rt[t] = RetAbsent]}
-    ELSE {[(IF Status(c, t) = "subscription_error" THEN c ELSE SetSt(c, t, "temporary_unreachable"))
-           EXCEPT !.rt[t].s = "running", !.rt[t].pc = "begin", !.rt[t].nf = 0, !.rt[t].nbf = 0, !.rt[t].ft = 0, !.rt[t].seq = 0,
-                  !.inmap[t] = "running", !.ntask[t] = @ + 1]}
+    \* asked for it).  S18: the code runs the loop and sends.
+    \* (it is either not started at all, or started only to find out at once - RunBegin - that there is nothing to do)
+    ELSE (IF Status(c, t) = "misbehaving" /\ ~Dev("S18") THEN {[c EXCEPT !.rt[t] = RetAbsent]} ELSE {})
+         \cup {[(IF Status(c, t) = "subscription_error" THEN c ELSE SetSt(c, t, "temporary_unreachable"))
+                EXCEPT !.rt[t].s = "running", !.rt[t].pc = "begin", !.rt[t].nf = 0, !.rt[t].nbf = 0, !.rt[t].ft = 0, !.rt[t].seq = 0,
+                       !.inmap[t] = "running", !.ntask[t] = @ + 1]}
 
 \* ... and wake the idle ones whose delay has elapsed (pending data is reloaded from disk)
 MgrWake(c, t, tm) ==
@@ -370,7 +376,7 @@ MgrWake(c, t, tm) ==
 Running(c, t) == c.alive /\ c.rt[t].s = "running"
 
 \* the task aborted: the retrier stays "running" for ever
-RunDies(c, t) == [Die(c) EXCEPT !.rt[t].pc = "dead", !.ntask[t] = IF @ > 0 THEN @ - 1 ELSE 0]
+RunDies(c, t) == [Die(c) EXCEPT !.rt[t].pc = "dead", !.rt[t].rep = NoRep, !.ntask[t] = IF @ > 0 THEN @ - 1 ELSE 0]
 
 RunBegin(c, t) ==
     IF ~Running(c, t) \/ c.rt[t].pc # "begin" THEN {}
@@ -386,15 +392,20 @@ RunCanSendReg(c, t, now) == Running(c, t) /\ c.rt[t].pc = "reg" /\ now >= c.rt[t
 Sendable(c, t, l) == Dev("S21") \/ (l \in c.st.db.bodies /\ Ref(t, l) \in c.st.db.pend)
 \* nothing is sent to a tower proven misbehaving (S18: the loop does not look)
 Stopped(c, t) == Known(c, t) /\ Status(c, t) = "misbehaving" /\ ~Dev("S18")
-RunCanSendAdd(c, t, l, now) == /\ Running(c, t) /\ c.rt[t].pc = "loop" /\ l \in c.rt[t].pend /\ Sendable(c, t, l)
-                               /\ ~c.poisoned /\ now >= c.rt[t].nbf /\ ~Stopped(c, t)
+\* the loop decides what to send next (critical section: still pending? tower not flagged?) ...
+RunPick(c, t) ==
+    IF ~Running(c, t) \/ c.rt[t].pc # "loop" \/ c.poisoned \/ Stopped(c, t) THEN {}
+    ELSE {[c EXCEPT !.rt[t].pc = "pick", !.rt[t].cur = l,
+                    !.sentMis = IF HasProof(c.st.db, t) THEN @ \cup {t} ELSE @,
+                    !.dev = @ \cup (IF HasProof(c.st.db, t) THEN {"S18"} ELSE {})
+                              \cup (IF Ref(t, l) \notin c.st.db.pend THEN {"S21"} ELSE {})]
+          : l \in {x \in c.rt[t].pend : Sendable(c, t, x)}}
+\* ... and the request reaches the tower a little later (whatever happened to the tower's record meanwhile)
+RunCanSendAdd(c, t, l, now) == Running(c, t) /\ c.rt[t].pc = "pick" /\ c.rt[t].cur = l /\ now >= c.rt[t].nbf
 
 RunSendReg(c, t, seq) == [c EXCEPT !.rt[t].pc = "regwait", !.rt[t].seq = seq, !.rt[t].nbf = 0, !.rt[t].ft = 0]
 RunSendAdd(c, t, l, seq) ==
-    [c EXCEPT !.rt[t].pc = "wait", !.rt[t].cur = l, !.rt[t].seq = seq, !.rt[t].nbf = 0, !.rt[t].ft = 0,
-              !.sentMis = IF HasProof(c.st.db, t) THEN @ \cup {t} ELSE @,
-              !.dev = @ \cup (IF HasProof(c.st.db, t) THEN {"S18"} ELSE {})
-                        \cup (IF Ref(t, l) \notin c.st.db.pend THEN {"S21"} ELSE {})]
+    [c EXCEPT !.rt[t].pc = "wait", !.rt[t].cur = l, !.rt[t].seq = seq, !.rt[t].nbf = 0, !.rt[t].ft = 0]
 
 \* transient failure at time ft: the strategy sleeps (back-off); minb = minimal back-off
 RunFail(c, t, ft, minb) == [c EXCEPT !.rt[t].pc = "fail", !.rt[t].cur = NoLoc, !.rt[t].rep = NoRep, !.rt[t].nf = IF @ < 2 THEN @ + 1 ELSE @,
@@ -404,7 +415,7 @@ RunFail(c, t, ft, minb) == [c EXCEPT !.rt[t].pc = "fail", !.rt[t].cur = NoLoc, !
 RunLocal(c, t) ==
     LET r == c.rt[t] IN
     IF ~Running(c, t) THEN {}
-    ELSE IF r.pc = "reg" THEN (IF c.up[t] THEN {} ELSE {RunFail(c, t, 0, 0)})
+    ELSE IF r.pc \in {"reg", "pick"} THEN (IF c.up[t] THEN {} ELSE {RunFail(c, t, 0, 0)})
     ELSE IF r.pc = "loop"
          THEN (IF r.pend = {} THEN {[c EXCEPT !.rt[t].pc = "end_ok"]}
                ELSE IF c.poisoned THEN {RunDies(c, t)}
@@ -422,19 +433,28 @@ RunRegRecv(c, t, tm) ==
     LET r == c.rt[t] IN
     IF ~Running(c, t) \/ r.pc # "reggot" THEN {}
     ELSE IF r.rep.cls = "garbage" THEN {RunFail(c, t, r.rep.ts, tm.minb)}
-    ELSE IF r.rep.cls # "accept" THEN {[c EXCEPT !.rt[t].pc = "end_sub", !.rt[t].rep = NoRep]}
+    ELSE IF r.rep.cls # "accept" THEN {[c EXCEPT !.rt[t].pc = "end_sub"]}
     ELSE IF c.poisoned THEN {RunDies(c, t)}
     ELSE IF ~Known(c, t) \/ RegAccepted(c.st, t, r.rep.slots, r.rep.expiry)
          THEN {[c EXCEPT !.st = RegApply(@, t, r.rep), !.rt[t].pc = "loop", !.rt[t].rep = NoRep]}
-         ELSE {[c EXCEPT !.rt[t].pc = "end_sub", !.rt[t].rep = NoRep]}
+         ELSE {[c EXCEPT !.rt[t].pc = "end_sub"]}
+
+\* an earlier rejection of (t, l) is forgotten (the data stays while something else refers to it)
+DropInvalid(st, t, l) ==
+    LET db1 == [st.db EXCEPT !.inv = @ \ {Ref(t, l)}]
+        db2 == [db1 EXCEPT !.bodies = IF Referenced(db1, l) THEN @ ELSE @ \ {l}]
+    IN UpdMem([st EXCEPT !.db = db2], t, LAMBDA m : [m EXCEPT !.invalid = @ \ {l}])
 
 \* first half of a move: the new record is added (one transaction) ...  If the appointment already has a final record
-\* (it is being re-delivered after a kill in the middle of an earlier move, or a duplicate got it there) that one stays.
+\* (it is being re-delivered after a kill in the middle of an earlier move, or a duplicate got it there) that one stays -
+\* or, if it was a rejection and the tower has now signed a receipt, the receipt takes its place.
 RunMoveAdd(c, t, l, kind, slots) ==
     LET final == Kinds(c.st.db, t, l) \ {"pending"}
         outs == IF ~Known(c, t) THEN {Ok(c.st)}
                 ELSE IF final = {} THEN {Ok(AddKind(c.st, t, l, kind, slots))}
                 ELSE {Ok(c.st)}
+                     \cup (IF kind = "accepted" /\ final = {"invalid"}
+                           THEN {Ok(AddReceipt(DropInvalid(c.st, t, l), t, l, slots))} ELSE {})
                      \cup (IF Dev("S15p") /\ SameRow(c.st.db, t, l, kind) THEN {Poison(c.st)} ELSE {})
                      \cup (IF Dev("S15") /\ ~SameRow(c.st.db, t, l, kind)
                            THEN {OkDev(AddKind(c.st, t, l, kind, slots), "S15")} ELSE {})
@@ -450,14 +470,14 @@ RunRecv(c, t, tm) ==
            [] r.rep.cls = "sub_error" ->
                 (IF c.poisoned THEN {RunDies(c, t)}
                  ELSE {SetSt(RunFail(c, t, r.rep.ts, tm.minb), t, "subscription_error")})
-           [] r.rep.cls = "badsig" -> {[c EXCEPT !.rt[t].pc = "end_misb", !.rt[t].rep = NoRep]}
+           [] r.rep.cls = "badsig" -> {[c EXCEPT !.rt[t].pc = "end_misb"]}
            [] r.rep.cls = "garbage" ->
                 ({RunFail(c, t, r.rep.ts, tm.minb)}
                  \cup (IF Dev("S13") THEN {[c EXCEPT !.rt[t].pc = "loop", !.rt[t].cur = NoLoc, !.rt[t].rep = NoRep,
                                                       !.rt[t].nf = IF @ < 2 THEN @ + 1 ELSE @, !.dev = @ \cup {"S13"}]}
                        ELSE {}))
            [] r.rep.cls = "malsig" ->
-                ({RunFail(c, t, r.rep.ts, tm.minb), [c EXCEPT !.rt[t].pc = "end_misb", !.rt[t].rep = NoRep]}
+                ({RunFail(c, t, r.rep.ts, tm.minb), [c EXCEPT !.rt[t].pc = "end_misb"]}
                  \cup (IF Dev("S14") THEN {[RunDies(c, t) EXCEPT !.dev = @ \cup {"S14"}]} ELSE {}))
            [] OTHER -> {}
 
@@ -548,7 +568,7 @@ SetUp(c, t, b) == [c EXCEPT !.up[t] = b]
 \* SIGKILL: everything that is not on disk is gone (transactions are atomic: every step above has at most one)
 Kill(c) ==
     [c EXCEPT !.st.mem = {}, !.rt = [t \in Towers |-> RetAbsent], !.inmap = [t \in Towers |-> "none"], !.chan = {},
-              !.nots = {}, !.regs = {}, !.alive = FALSE, !.poisoned = FALSE, !.mgr = FALSE, !.mgrN = 0,
+              !.nots = {}, !.regs = {}, !.rpc = {}, !.alive = FALSE, !.poisoned = FALSE, !.mgr = FALSE, !.mgrN = 0,
               !.ntask = [t \in Towers |-> 0]]
 
 \* start: summaries rebuilt from disk; the retriers of the towers with pending data are told
@@ -569,6 +589,7 @@ Hidden(c, tm) ==
          \cup UNION {RegRecv(c, g) : g \in c.regs}
          \cup MgrDrain(c, tm)
          \cup UNION {MgrDrop(c, t) \cup MgrStart(c, t, tm) \cup MgrWake(c, t, tm) \cup RunBegin(c, t) \cup RunLocal(c, t)
+                     \cup RunPick(c, t)
                      \cup RunRegRecv(c, t, tm) \cup RunRecv(c, t, tm) \cup RunMove(c, t) \cup RunRetry(c, t)
                      \cup GiveUp(c, t, tm) \cup RunEnd(c, t) : t \in Towers}
 
